@@ -402,3 +402,9 @@ def shrink(case, fails):
         if fails(t): cur = t
         else: j += 1
     return cur
+
+
+def translate(repo, gen_dir):
+    """regenerate Gen/C09_Kernel.v (kernel expressions of afreq/afixed/apoly/maf/gtcount) from the current source; fail closed"""
+    from translate import c09_kernel
+    return [c09_kernel.translate(repo, gen_dir)]
